@@ -676,6 +676,10 @@ func (fc *funcCtx) exec(st *State, ins ssa.Instruction) (stop bool) {
 		}
 		if x.Comment != "" {
 			st.named[x.Comment] = x
+			// a shadowed variable stays reachable as name$N (N-th declaration of that name, parameters first)
+			if n := fc.declOrdinal(x); n > 0 {
+				st.named[fmt.Sprintf("%s$%d", x.Comment, n)] = x
+			}
 		}
 		st.regs[x] = PtrV{Cell: x, IsNil: "false"}
 	case *ssa.Store:
@@ -1297,4 +1301,48 @@ func (fc *funcCtx) stringOfSlice(st *State, sv SliceV) Sc {
 	st.assume(fmt.Sprintf("(forall ((i Int)) (! (=> (and (<= 0 i) (< i %s)) (= (gs.at %s i) (select (select %s %s) %s))) :pattern ((gs.at %s i))))", sv.Len, r, h, sv.Ref, elemIx(sv.Off, "i"), r))
 	st.ghost[key] = Sc{r, SStr}
 	return Sc{r, SStr}
+}
+
+// declOrdinal: which declaration of its name an Alloc is, counting a parameter of that name
+// first and then the locals in declaration order; 0 if the name is declared only once.
+func (fc *funcCtx) declOrdinal(a *ssa.Alloc) int {
+	if fc.declOrd == nil {
+		fc.declOrd = map[*ssa.Alloc]int{}
+		count := map[string]int{}
+		spill := map[*ssa.Alloc]bool{}
+		for _, p := range fc.fn.Params {
+			count[p.Name()] = 1
+			if refs := p.Referrers(); refs != nil {
+				for _, r := range *refs {
+					if st, ok := r.(*ssa.Store); ok && st.Val == ssa.Value(p) {
+						if al, ok := st.Addr.(*ssa.Alloc); ok && al.Comment == p.Name() {
+							spill[al] = true
+						}
+					}
+				}
+			}
+		}
+		total := map[string]int{}
+		for k, v := range count {
+			total[k] = v
+		}
+		for _, l := range fc.fn.Locals {
+			if l.Comment == "" {
+				continue
+			}
+			if spill[l] {
+				fc.declOrd[l] = 1
+				continue
+			}
+			total[l.Comment]++
+			fc.declOrd[l] = total[l.Comment]
+		}
+		for l, n := range fc.declOrd {
+			if total[l.Comment] <= 1 {
+				_ = n
+				fc.declOrd[l] = 0
+			}
+		}
+	}
+	return fc.declOrd[a]
 }
